@@ -182,6 +182,12 @@ def _gen(ctx):
         yield "ber", 0.5, h
     for h in _histories(ctx, pool, 2, 20, 40):
         yield "ber", 0.5, h
+    # two batches of the SAME size with different error counts: every history up to length 6 over {u0, u1, compute, reset}
+    # (a stale value keyed on totals, a reset that forgets part of the state, ... only show when totals repeat)
+    twin = [(T([1., 0., 1., 1.]), T([1., 0., 1., 0.])), (T([0., 0., 1., 1.]), T([1., 1., 0., 1.]))]
+    for h in _histories(ctx, twin, 6, 0, 0):
+        if h[-1] == ("c",) and ("r",) in h:
+            yield "ber", 0.5, h
     # adversarial pairs, one-shot and streaming
     for n in (1, 2, 5, 8):
         x = bits(n)
@@ -211,6 +217,13 @@ def _gen(ctx):
         pool_b = [(rows(2, 4), rows(2, 4)), (rows(1, 6), rows(1, 6)), (rows(3, 12), rows(3, 12))]
         for h in _histories(ctx, pool_b, 3 if not ctx.thorough else 4, 40 if ctx.thorough else 8, 100 if ctx.thorough else 30):
             yield "bler", bs, h
+        if bs in (None, 2):
+            xx = rows(2, 4)
+            y1 = xx.clone(); y1[0, 1] = 1 - y1[0, 1]
+            y2 = 1 - xx
+            for h in _histories(ctx, [(xx, y1), (xx, y2)], 5, 0, 0):
+                if h[-1] == ("c",) and ("r",) in h:
+                    yield "bler", bs, h
         x = rows(2, 12)
         for i in range(12):
             y = x.clone(); y[1, i] = 1 - y[1, i]
